@@ -10,9 +10,10 @@ use rosu_map::section::{
     hit_objects::HitObjects, metadata::Metadata, timing_points::TimingPoints,
 };
 use rosu_map::Beatmap;
-use std::time::Instant;
+use std::sync::mpsc;
+use std::time::{Duration, Instant};
 
-pub const RULE: &str = "byte strings: uniform noise, grammar-generated .osu text (levels 0-2, hostile numerics), byte/line/field mutations, splices and truncations of the bundled maps, BOM/UTF-16 variants; each through all nine decoder types (from_bytes) and, for Beatmap, re-encoded; non-trivial = at least one section header recognised and at least 5 lines; distinct = distinct byte strings";
+pub const RULE: &str = "byte strings: uniform noise, grammar-generated .osu text (levels 0-2, hostile numerics), byte/line/field mutations, splices and truncations of the bundled maps, BOM/UTF-16 variants, every byte string of length <= 2 (thorough: <= 3) over the BOM/line-feed alphabet, files whose string-valued fields (file names, metadata, colour names, sample files, headers) carry multi-byte characters at every offset from their end; each under a watchdog (no return within 15 s = hang) through all nine decoder types (from_bytes) and, for Beatmap, re-encoded; non-trivial = at least one section header recognised and at least 5 lines; distinct = distinct byte strings";
 
 fn hex(bytes: &[u8]) -> String {
     let mut s = String::with_capacity(bytes.len() * 2);
@@ -50,7 +51,67 @@ macro_rules! try_decoder {
     }};
 }
 
-pub fn check_bytes(bytes: &[u8], origin: &str, out: &mut Out) {
+/// what one input produced; filled in a worker thread, merged by `check_bytes`
+#[derive(Default)]
+struct Rec {
+    fails: Vec<(String, String, String)>,
+    counts: Vec<String>,
+    oracle_checks: u64,
+}
+impl Rec {
+    fn fail(&mut self, class: &str, input: &str, detail: &str) {
+        self.fails.push((class.to_string(), input.to_string(), detail.to_string()));
+    }
+    fn count(&mut self, key: &str) {
+        self.counts.push(key.to_string());
+    }
+}
+
+/// seconds after which a decode (+ encode) that has not returned counts as a hang
+const HANG_SECS: u64 = 15;
+/// after this many hangs the run stops feeding inputs (each one leaves a spinning thread behind)
+const MAX_HANGS: u32 = 2;
+
+/// Runs all nine decoders (and the encoder) on `bytes` in a worker thread under
+/// a watchdog: "terminates" is part of the property, and a decoder that loops
+/// forever must become a reported failing input rather than a stuck harness.
+pub fn check_bytes(bytes: &[u8], origin: &str, out: &mut Out, hangs: &mut u32) {
+    let (tx, rx) = mpsc::channel();
+    let b = bytes.to_vec();
+    let o = origin.to_string();
+    let spawned = std::thread::Builder::new().stack_size(32 << 20).spawn(move || {
+        let mut rec = Rec::default();
+        check_bytes_rec(&b, &o, &mut rec);
+        let _ = tx.send(rec);
+    });
+    if spawned.is_err() {
+        let mut rec = Rec::default();
+        check_bytes_rec(bytes, origin, &mut rec);
+        merge(rec, out);
+        return;
+    }
+    match rx.recv_timeout(Duration::from_secs(HANG_SECS)) {
+        Ok(rec) => merge(rec, out),
+        Err(_) => {
+            *hangs += 1;
+            out.oracle_checks += 1;
+            let desc = format!("{} len={} hex={}", origin, bytes.len(), hex(bytes));
+            out.fail("", &desc, &format!("decoding with the nine decoder types (then encoding) did not return within {} s: hang", HANG_SECS));
+        }
+    }
+}
+
+fn merge(rec: Rec, out: &mut Out) {
+    out.oracle_checks += rec.oracle_checks;
+    for (c, i, d) in rec.fails {
+        out.fail(&c, &i, &d);
+    }
+    for k in rec.counts {
+        out.count(&k);
+    }
+}
+
+fn check_bytes_rec(bytes: &[u8], origin: &str, out: &mut Rec) {
     let desc = format!("{} len={} hex={}", origin, bytes.len(), hex(bytes));
     try_decoder!(General, "General", bytes, out, &desc);
     try_decoder!(Editor, "Editor", bytes, out, &desc);
@@ -146,6 +207,65 @@ pub fn inputs(tier: &str, seed: u64, mut f: impl FnMut(&[u8], &str)) {
             }
         }
     }
+    // 3b. sliders far outside the playfield (coordinates up to +-131072): enormous perfect
+    // curves (arc needs >= 1000 sub-points -> Bezier fall-back), nearly collinear triples at
+    // large magnitude (ill-conditioned circumcircle: NaN / huge radius), long Beziers; alone,
+    // before and after ordinary sliders, as first and as later segments, in all four modes
+    for i in 0..200 * scale {
+        let mode = i % 4;
+        let mut lines: Vec<String> = vec!["osu file format v14".into(), "[General]".into(), format!("Mode: {}", mode), "[TimingPoints]".into(), "0,500,4,1,0,100,1,0".into(), "[HitObjects]".into()];
+        let n = r.range(1, 6);
+        let mut t = 1000;
+        for _ in 0..n {
+            let big = |r: &mut Rng| r.range(-131072, 131072);
+            let path = match r.below(6) {
+                0 => format!("P|{}:{}|{}:{}", big(&mut r), big(&mut r), big(&mut r), big(&mut r)),
+                1 => {
+                    // a, a + s*d, a + t*d + tiny perpendicular offset
+                    let (ax, ay) = (big(&mut r) / 2, big(&mut r) / 2);
+                    let (dx, dy) = (r.range(-3000, 3000), r.range(-3000, 3000));
+                    let (s1, s2) = (r.range(1, 10), r.range(11, 20));
+                    let (ex, ey) = (r.range(-2, 2), r.range(-2, 2));
+                    let lead = if r.chance(1, 2) { "L|10:10|" } else { "" };
+                    format!("{}P|{}:{}|{}:{}|{}:{}", lead, ax, ay, ax + s1 * dx, ay + s1 * dy, ax + s2 * dx + ex, ay + s2 * dy + ey)
+                }
+                2 if r.chance(1, 2) => format!("P|100000:100000|100000:0"),
+                2 => {
+                    // lattice-thin triangle far from the slider head, as a LATER segment: a,
+                    // a + (p,q), a + k(p,q) + (ex,ey) with p*ey - q*ex = 1, so twice the signed area is
+                    // exactly +-1 -- never "collinear" for the decoder -- while the circumcircle
+                    // determinant is summed from products of magnitude |a|*|p| >> 2^24 and cancels to
+                    // 0, +-32, ... in f32: centre and radius become inf / NaN
+                    fn egcd(a: i64, b: i64) -> (i64, i64, i64) {
+                        if b == 0 {
+                            (a, 1, 0)
+                        } else {
+                            let (g, x, y) = egcd(b, a % b);
+                            (g, y, x - (a / b) * y)
+                        }
+                    }
+                    let sgn = |r: &mut Rng| if r.chance(1, 2) { 1 } else { -1 };
+                    let (ax, ay) = (sgn(&mut r) * r.range(40_000, 100_000), sgn(&mut r) * r.range(40_000, 100_000));
+                    let (mut p, q) = (r.range(200, 3000), r.range(200, 3000));
+                    while egcd(p, q).0 != 1 {
+                        p += 1;
+                    }
+                    let (_, x, y) = egcd(p, q);
+                    let k = r.range(2, 8);
+                    let lead = if r.chance(3, 4) { "L|10:10|" } else { "" };
+                    format!("{}P|{}:{}|{}:{}|{}:{}", lead, ax, ay, ax + p, ay + q, ax + k * p - y, ay + k * q + x)
+                }
+                3 => format!("B|{}:{}|{}:{}|{}:{}|{}:{}", big(&mut r), big(&mut r), big(&mut r), big(&mut r), big(&mut r), big(&mut r), big(&mut r), big(&mut r)),
+                4 => format!("B|100:100|200:0|P|{}:{}|{}:{}", big(&mut r), big(&mut r), big(&mut r), big(&mut r)),
+                _ => format!("C|{}:{}|{}:{}|{}:{}", big(&mut r), big(&mut r), big(&mut r), big(&mut r), big(&mut r), big(&mut r)),
+            };
+            let len = *r.pick(&["", ",1", ",1,100", ",2,120000", ",3,0"]);
+            lines.push(format!("{},{},{},2,0,{}{}", r.range(0, 512), r.range(0, 384), t, path, len));
+            t += 700;
+        }
+        let text = lines.join("\n") + "\n";
+        f(text.as_bytes(), "large-sliders");
+    }
     // 4. BOM / UTF-16 variants incl. odd tails and truncated code units
     for i in 0..60 * scale {
         let o = Opts { level: 1, max_objects: 5, ..Opts::default() };
@@ -158,17 +278,116 @@ pub fn inputs(tier: &str, seed: u64, mut f: impl FnMut(&[u8], &str)) {
         }
         f(&b, &format!("encoded-enc{}", enc));
     }
+    // 5. every short byte string over the alphabet of the BOM sniffer and the line splitter
+    //    (complete and partial BOMs, NUL, LF, a header byte, a letter)
+    let bom_alpha: [u8; 9] = [0xEF, 0xBB, 0xBF, 0xFE, 0xFF, 0x00, 0x0A, b'[', b'A'];
+    f(&[], "short-bytes");
+    for &a in &bom_alpha {
+        f(&[a], "short-bytes");
+        for &b in &bom_alpha {
+            f(&[a, b], "short-bytes");
+            if tier == "thorough" {
+                for &c in &bom_alpha {
+                    f(&[a, b, c], "short-bytes");
+                }
+            }
+        }
+    }
+    // complete BOM followed by a partial one / by one more byte
+    for bom in [&[0xEFu8, 0xBB, 0xBF][..], &[0xFF, 0xFE][..], &[0xFE, 0xFF][..]] {
+        for &a in &bom_alpha {
+            let mut v = bom.to_vec();
+            v.push(a);
+            f(&v, "short-bytes");
+        }
+    }
+    // 6. multi-byte characters at every offset from the end of every string-valued field
+    for i in 0..100 * scale {
+        let text = unicode_fields_file(&mut r);
+        let enc = if i % 6 == 5 { 2 } else { 0 };
+        f(&gen_osu::encode_as(&text, enc), "unicode-fields");
+    }
+}
+
+/// 0..=5 characters drawn from 1-, 2-, 3- and 4-byte characters (plus the
+/// separators the parsers look for), so that every byte offset near the start
+/// and the end of a field falls inside a character in some case
+fn ustr(r: &mut Rng) -> String {
+    const POOL: [&str; 14] = ["a", "Z", ".", "0", "\u{e9}", "\u{fc}", "\u{65e5}", "\u{672c}", "\u{1d11e}", "\u{301}", "\"", " ", "\u{a0}", "\u{3000}"];
+    let n = r.below(6);
+    let mut s = String::new();
+    for _ in 0..n {
+        s.push_str(*r.pick(&POOL));
+    }
+    s
+}
+
+fn unicode_fields_file(r: &mut Rng) -> String {
+    let mut l: Vec<String> = vec!["osu file format v14".into()];
+    l.push("[General]".into());
+    l.push(format!("AudioFilename: {}", ustr(r)));
+    l.push(format!("SampleSet: {}", ustr(r)));
+    l.push(format!("{}: {}", ustr(r), ustr(r)));
+    l.push("[Metadata]".into());
+    for k in ["Title", "TitleUnicode", "Artist", "ArtistUnicode", "Creator", "Version", "Source", "Tags"] {
+        if r.chance(1, 2) {
+            l.push(format!("{}:{}", k, ustr(r)));
+        }
+    }
+    l.push("[Events]".into());
+    for _ in 0..r.range(2, 6) {
+        let name = ustr(r);
+        let ext = *r.pick(&["", ".avi", ".jpg", ".MP4", "avi", ".m4", "4v"]);
+        let kind = *r.pick(&["0", "1", "Video", "Background", "2", "Sample", "4", "Sprite"]);
+        let line = match r.below(4) {
+            0 => format!("{},0,\"{}{}\"", kind, name, ext),
+            1 => format!("{},0,{}{}", kind, name, ext),
+            2 => format!("{},0,\"{}{}\",0,0", kind, name, ext),
+            _ => format!("{},{},\"{}{}", kind, ustr(r), name, ext),
+        };
+        l.push(line);
+    }
+    l.push(format!("[{}]", ustr(r)));
+    l.push(ustr(r));
+    l.push("[Colours]".into());
+    l.push(format!("{} : 1,2,3", ustr(r)));
+    l.push(format!("Combo{} : 1,2,3", ustr(r)));
+    l.push("[TimingPoints]".into());
+    l.push(format!("0,500,4,{},0,100,1,0", ustr(r)));
+    l.push("[HitObjects]".into());
+    l.push(format!("256,192,0,1,0,0:0:0:0:{}", ustr(r)));
+    l.push(format!("256,192,100,2,0,L|300:192,1,44,0|0,0:0|0:0,0:0:0:0:{}{}", ustr(r), *r.pick(&["", ".wav"])));
+    l.push(format!("0,0,200,128,0,300:0:0:0:0:{}", ustr(r)));
+    l.push(format!("256,192,300,1,0,{}", ustr(r)));
+    l.push(format!("{},192,400,1,0", ustr(r)));
+    l.join("\n") + "\n"
 }
 
 pub fn generate(tier: &str, seed: u64, out: &mut Out) {
     let mut n = 0u64;
     let mut by_origin: std::collections::BTreeMap<String, u64> = Default::default();
+    let mut hangs = 0u32;
+    let mut skipped = 0u64;
     inputs(tier, seed, |b, origin| {
+        if hangs >= MAX_HANGS {
+            skipped += 1;
+            return;
+        }
         n += 1;
         let key = origin.split(' ').next().unwrap_or("").to_string();
         *by_origin.entry(key).or_insert(0) += 1;
-        check_bytes(b, origin, out);
+        let before = out.oracle.len();
+        check_bytes(b, origin, out, &mut hangs);
+        // byte-level correspondence (reader model composed with the decoder models) on a
+        // sample of the inputs; inputs on which the implementation hung or panicked are skipped
+        if out.oracle.len() == before && b.len() <= 6000 && n % 3 == 0 {
+            crate::decoders::model_case_bytes(8, b, out, origin);
+            crate::decoders::model_case_bytes((n % 8) as usize, b, out, origin);
+        }
     });
+    if skipped > 0 {
+        out.count_n("inputs.skipped_after_hangs", skipped);
+    }
     for (k, v) in by_origin {
         out.count_n(&format!("inputs.{}", k), v);
     }
